@@ -236,10 +236,15 @@ theorem deliver_inv (cfg : SCfg) (m : Sim) (e : Event) (h : Inv cfg m) (hopen : 
           · exact h.open_ hs hopen x hx
           · exact hlast hn hs
       split
+      · -- the handler failed on this block: delivered once, the stream has ended
+        apply key
+        · rfl
+        · intro hn; simp at hn
+      split
       · apply key
         · exact (applyPushes_out _ _).1
         · intro hn; simp at hn
-      · rename_i hne
+      · rename_i _ hne
         apply key
         · exact (applyPushes_out _ _).1
         · intro _ hs
